@@ -302,8 +302,8 @@ def _hist_features(case, outs, value_class):
 def gen_field(rng, tier):
     fam = rng.choice([32, 64])
     vtype = rng.choice(c01.VTYPES)
-    if rng.random() < (0.3 if vtype in ("wide", "widestr") else BULK_SHARE):
-        kind = "wide" if vtype in ("wide", "widestr") and rng.random() < 0.7 else "hot"
+    if rng.random() < (0.3 if vtype in c01.WIDE_KINDS else BULK_SHARE):
+        kind = "wide" if vtype in c01.WIDE_KINDS and rng.random() < 0.7 else "hot"
         cfg = [["cfg", "family", fam], ["cfg", "vtype", vtype], ["cfg", "disc", rng.choice(["attr", "callable"])],
                ["cfg", "mode", "bulk-" + kind]]
         return {"session": "field", "cfg": cfg,
@@ -313,6 +313,11 @@ def gen_field(rng, tier):
         ids = ids[:rng.randrange(2, 8)]
     nvals = rng.randrange(1, 7)
     used = sorted(rng.sample(range(len(c01.pool_of(vtype))), nvals))
+    nonev = bool(c01.qlo_of(vtype)) and rng.random() < 0.85
+    if nonev:
+        # `X+none` pools: the VALUE None (rank 0: attribute present and None; a value like any other, sorted below
+        # everything) is among the values, and a third of the value-carrying operations use it
+        used = sorted(set(used) | {0})
     maxlen = 40 if tier == "quick" or rng.random() < 0.9 else 300
     cmds = []
     for _ in range(rng.randrange(4, maxlen)):
@@ -324,6 +329,8 @@ def gen_field(rng, tier):
             cmds.append(["unindex", d])
         elif r < 0.4:
             cmds.append([_index_verb(rng), d, "none"])
+        elif nonev and r < 0.6:
+            cmds.append([_index_verb(rng), d, 0])
         else:
             cmds.append([_index_verb(rng), d, rng.choice(used)])
         _probes(rng, cmds, d, ids, fresh=False)
@@ -349,10 +356,19 @@ class FieldObs(_Base):
     def canon_repr(self, r):
         return str(self.f.rank.get(r, "?" + r))     # document_repr = repr(value)
 
+    def show_repr(self, idx, d):
+        # a document whose value is None: `document_repr(d)` with the implicit default None cannot tell "value None"
+        # from "unknown" (it returns the default, None, for both) - such documents are asked with an explicit default
+        cur = self.current.get(d)
+        if cur and cur != ["none"] and self.f.pool[cur[0]][0] is None:
+            self.nrepr += self.nrepr % 2
+        return _Base.show_repr(self, idx, d)
+
 
 def features_field(case, outs):
-    f = _hist_features(case, outs, lambda v: "none" if v == ["none"] else "val")
     cfg = cfgdict(case)
+    nonev = c01.qlo_of(cfg.get("vtype"))
+    f = _hist_features(case, outs, lambda v: "none" if v == ["none"] else "valNone" if nonev and v == [0] else "val")
     f += ["field:vtype:%s" % cfg.get("vtype"), "field:mode:%s" % cfg.get("mode", "small")]
     f += ["field:" + x for x in c01.size_features(case, lambda c: "none" if c[2] == "none" else (c[2],))[0]]
     return f
